@@ -330,6 +330,9 @@ def check(run):
     c01.EXTRA_CLASSES = extra
     c01.report(run, "C14", cases, meta, rejects, "c14")
     c01.EXTRA_CLASSES = {}
+    # collapsing collectors step by step (thresholds after TopCollector.remove, kept entries)
+    from harness import coltrace
+    coltrace.check_collectors(run, rng, 6 if quick else 60, 25, "c14-collector", collapse_fields=("num", "key"))
     bad = set((ci, qi) for ci, qi, oi, exp in rejects)
     for ci, cs in enumerate(cases):
         for qi, qo in enumerate(cs["qs"]):
